@@ -191,7 +191,7 @@ where
                         }
                     } else if char == OSC {
                         let code = co.yield_(None).unwrap_or_default();
-                        if code == "R" || code == "p" {
+                        if code == "R" || code == "P" {
                             continue; // reset palette not implemented
                         }
                         let mut param = "".to_owned();
@@ -318,7 +318,7 @@ where
                         }
                     } else if char == OSC {
                         let code = co.yield_(None).unwrap_or_default();
-                        if code == "R" || code == "p" {
+                        if code == "R" || code == "P" {
                             continue; // reset palette not implemented
                         }
                         let mut param = "".to_owned();
